@@ -9,6 +9,7 @@ import (
 	"fmt"
 	"os"
 	"path/filepath"
+	"regexp"
 	"sort"
 	"strconv"
 	"strings"
@@ -660,22 +661,82 @@ func c01ExprFamily(n int) *c01Family {
 // ---------------------------------------------------------------------------
 // hostile strings at positions that parse their value
 
-var c01StringPositions = []string{"branches", "tags", "paths", "branches-ignore", "cron", "shell", "uses", "image", "label", "permission-scope", "permission-value", "job-id", "step-id", "env-key", "input-name", "needs", "types", "event-name", "working-directory", "credentials", "docker-args", "dispatch-type", "matrix-key", "output-name", "secret-name", "config-label", "config-var", "config-path", "config-ignore", "action-using", "action-input", "action-branding"}
+var c01StringPositions = []string{"branches", "tags", "paths", "branches-ignore", "cron", "shell", "uses", "image", "label", "permission-scope", "permission-value", "job-id", "step-id", "env-key", "input-name", "needs", "types", "event-name", "working-directory", "credentials", "docker-args", "dispatch-type", "matrix-key", "output-name", "secret-name", "config-label", "config-var", "config-path", "config-ignore", "action-using", "action-input", "action-branding", "action-docker-image", "action-composite-step"}
 
 var c01StringAlphabet = []string{"a", "z", "A", "0", "9", "*", "**", "?", "+", "[", "]", "[a-z]", "[z-a]", "[]", "[!", "-", "!", "\\", "/", ".", "..", " ", "~", "^", ":", "@", "@{", "\n", "\r", "\t", "\x00", "\x7f", "é", "日本", "\xff", "'", "\"", "$", "${{", "}}", "{", "}", "#", "%", "&", "|", ",", ";", "=", "<", ">", "(", ")", "`", "_", "--", "//", "./", "../", "docker://", "@v1", "@", "*/5", "0 0 * * *", "@daily", "@every 1s", "60", "-1", "1-", "1/0", "JAN", "?", "L", "bash", "pwsh {0}", "python", "{0}", "ubuntu-latest", "self-hosted", "windows-", "read", "write", "none", "read-all", "contents"}
 
 // c01PositionStrings are hostile values that are specific to one position (formats that take a
 // different code path than arbitrary text).
 var c01PositionStrings = map[string][]string{
-	"uses":   {"./foo.yml@v1", "./@", "./a@", "./.github/workflows/reusable.yml@main", "./act@v1", "docker://", "docker://:", "docker://a:b:c", "owner/repo@", "owner/repo/path@", "@", "a/b", "./", ".", "./..", "./act/", "./act/../act", "././act", "./.github/workflows/../workflows/reusable.yml", "owner/repo/.github/workflows/w.yml@v1", "owner/repo/.github/workflows/w.yml@", "./.github/workflows/reusable.yml/"},
-	"image":  {"docker://", "a:b:c", ":", "@sha256:", "${{"},
-	"cron":   {"0 0 30 2 *", "0 0 31 4 *", "* * * * * *", "@yearly", "*/0 * * * *", "60 * * * *", "0-59/1000 * * * *", "TZ=UTC * * * * *", "CRON_TZ=x * * * * *"},
-	"shell":  {"bash {0}", "{0}", "python {0}", "bash -e {0} {1}", "pwsh -command \". '{0}'\""},
-	"needs":  {"j1", "J1", ""},
-	"job-id": {"__proto__", "constructor", "toString"},
+	"uses":                {"./foo.yml@v1", "./@", "./a@", "./.github/workflows/reusable.yml@main", "./act@v1", "docker://", "docker://:", "docker://a:b:c", "owner/repo@", "owner/repo/path@", "@", "a/b", "./", ".", "./..", "./act/", "./act/../act", "././act", "./.github/workflows/../workflows/reusable.yml", "owner/repo/.github/workflows/w.yml@v1", "owner/repo/.github/workflows/w.yml@", "./.github/workflows/reusable.yml/"},
+	"image":               {"docker://", "a:b:c", ":", "@sha256:", "${{"},
+	"action-docker-image": {"docker://", "docker://a", "Dockerfile", "dockerfile", "ghcr.io/", "gcr.io/", "gcr.io/a", "pkg.dev/", "docker.io/", "x.pkg.dev/a", "ghcr.io/a:b", "docker://:", "./Dockerfile", "../Dockerfile", "Dockerfile.x"},
+	"cron":                {"0 0 30 2 *", "0 0 31 4 *", "* * * * * *", "@yearly", "*/0 * * * *", "60 * * * *", "0-59/1000 * * * *", "TZ=UTC * * * * *", "CRON_TZ=x * * * * *"},
+	"shell":               {"bash {0}", "{0}", "python {0}", "bash -e {0} {1}", "pwsh -command \". '{0}'\""},
+	"needs":               {"j1", "J1", ""},
+	"job-id":              {"__proto__", "constructor", "toString"},
+}
+
+// c01Dict: string literals of the repository's own non-test sources (read at check time), used
+// like a fuzzing dictionary: values that are compared against such literals ("docker://",
+// "ghcr.io/", "self-hosted", ...) take code paths that arbitrary text never reaches.
+var c01DictOnce sync.Once
+var c01DictList []string
+var c01DictRe = regexp.MustCompile(`"((?:[^"\\\n]|\\.){1,24})"`)
+
+func c01Dict() []string {
+	c01DictOnce.Do(func() {
+		ms, _ := filepath.Glob(filepath.Join(repoDir(), "*.go"))
+		sort.Strings(ms)
+		seen := map[string]bool{}
+		for _, m := range ms {
+			if strings.HasSuffix(m, "_test.go") || strings.HasPrefix(filepath.Base(m), "verif_") {
+				continue
+			}
+			b, err := os.ReadFile(m)
+			if err != nil {
+				continue
+			}
+			for _, g := range c01DictRe.FindAllStringSubmatch(string(b), -1) {
+				t, err := strconv.Unquote(`"` + g[1] + `"`)
+				if err != nil || t == "" || len(t) > 24 || strings.ContainsAny(t, "%\n") {
+					continue
+				}
+				if !seen[t] {
+					seen[t] = true
+					c01DictList = append(c01DictList, t)
+				}
+			}
+		}
+		sort.Strings(c01DictList)
+		if len(c01DictList) == 0 {
+			c01DictList = []string{"docker://"}
+		}
+	})
+	return c01DictList
 }
 
 func c01HostileString(r *Rand) string {
+	if r.Chance(1, 4) {
+		d := c01Dict()
+		n := r.Range(1, 3)
+		var sb strings.Builder
+		for i := 0; i < n; i++ {
+			t := d[r.Intn(len(d))]
+			if r.Chance(1, 4) && len(t) > 1 {
+				t = t[:r.Range(1, len(t))]
+			}
+			sb.WriteString(t)
+			if r.Chance(1, 3) {
+				sb.WriteString(r.Pick(c01StringAlphabet))
+			}
+		}
+		return sb.String()
+	}
+	return c01HostileStringAlpha(r)
+}
+
+func c01HostileStringAlpha(r *Rand) string {
 	if r.Chance(1, 25) {
 		return strings.Repeat(r.Pick(c01StringAlphabet), []int{100, 3000, 16000}[r.Intn(3)])
 	}
@@ -750,6 +811,10 @@ func c01StringFiles(pos, s string) map[string]string {
 		f[c01PathAction] = "name: " + q + "\ndescription: " + q + "\nruns:\n  using: " + q + "\n  main: " + q + "\n  image: " + q + "\n  steps: " + q + "\n"
 	case "action-input":
 		f[c01PathAction] = "name: a\ndescription: d\ninputs:\n  " + q + ":\n    required: " + q + "\n    default: " + q + "\noutputs:\n  " + q + ":\n    description: x\nruns:\n  using: node20\n  main: x.js\n"
+	case "action-docker-image":
+		f[c01PathAction] = "name: a\ndescription: d\nruns:\n  using: docker\n  image: " + q + "\n  pre-entrypoint: " + q + "\n  entrypoint: " + q + "\n  post-entrypoint: " + q + "\n  args: [" + q + "]\n  env:\n    A: " + q + "\n"
+	case "action-composite-step":
+		f[c01PathAction] = "name: a\ndescription: d\nruns:\n  using: composite\n  steps:\n    - run: " + q + "\n      shell: " + q + "\n    - uses: " + q + "\n      with:\n        a: " + q + "\n"
 	case "action-branding":
 		f[c01PathAction] = "name: a\ndescription: d\nbranding:\n  icon: " + q + "\n  color: " + q + "\nruns:\n  using: composite\n  steps: []\n"
 	}
